@@ -457,6 +457,37 @@ func C12(tier string) int {
 		}
 		c.Close()
 	}
+	// Instances with generation passphrases of their own and a client that supplies none: every participant must be able to
+	// use its share with what its own unlocker knows.
+	ownPass := 0
+	{
+		c, err := rig.NewCluster(rig.ClusterOpts{IDs: []uint64{1, 2, 3}, OwnPassphrases: true})
+		if err != nil {
+			run.HarnessErr = err
+			return run.Finish()
+		}
+		for _, initiator := range []uint64{1, 2, 3} {
+			for _, nt := range [][2]uint32{{3, 2}, {3, 3}} {
+				ownPass++
+				cells++
+				name := fmt.Sprintf("%s/own-%d-%d-%d", rig.DistWallet, initiator, nt[0], nt[1])
+				pk, parts, err := c.GenerateWith(initiator, name, nil, nt[1], nt[0])
+				rp := map[string]any{"check": "C12", "own_passphrases": true, "initiator": initiator, "n": nt[0], "t": nt[1]}
+				if err != nil {
+					run.Violate(fmt.Sprintf("own-passphrases-refused:n=%d:t=%d", nt[0], nt[1]),
+						fmt.Sprintf("instances with generation passphrases of their own, no client passphrase: a generation with n=%d t=%d started on instance %d failed: %v", nt[0], nt[1], initiator, err), rp)
+					refusals++
+					continue
+				}
+				successes++
+				for _, pr := range verifyGeneration(c, name, pk, parts, nt[1], 4) {
+					run.Violate(fmt.Sprintf("own-passphrases:n=%d:t=%d:%s", nt[0], nt[1], firstWords(pr, 4)),
+						fmt.Sprintf("instances with generation passphrases of their own, no client passphrase, generation n=%d t=%d started on instance %d: %s", nt[0], nt[1], initiator, pr), rp)
+				}
+			}
+		}
+		c.Close()
+	}
 	// The same over the real transport: four real instances with the real gRPC API server and the real gRPC sender on
 	// loopback addresses; every (n, t) a cluster of four admits, started on every instance.
 	overNet := 0
@@ -563,7 +594,7 @@ func C12(tier string) int {
 	run.Coverage = map[string]any{
 		"evaluations":                       cells,
 		"distinct_nontrivial":               len(perNT),
-		"rule":                              "clusters of n real instances wired through their real receiver handlers (messages marshalled and unmarshalled); after every successful generation each participant must at once sign with the new account addressed by name and addressed by its share public key, and list it; grid: n in 2..max, every t in 0..n+1, identifier sets (small, 10^6+i, 2^64-i, mixed), every initiator; for a valid t every order of participants returned by the peer selection and every commit completion order (all n! for small n, rotations+reversal above), and one tampered commit reply per participant and kind; oracle on success: every participant holds the account with the returned composite key, same vector/threshold/participants, share consistent with the vector, immediate signing and listing through its own services, every t-subset of partial signatures recovers a valid composite signature and no (t-1)-subset does; plus 20 generations on four instances that talk over the real gRPC transport (real API servers, real sender), judged by the same oracle; plus generations in a cluster of 5 configured instances for every n < 5 and every t incl. thresholds above n and without majority (exactly n participants reported, exactly n holders; impossible thresholds refused); plus second generations of a name the participants already hold, started on a participant and on an instance outside the participant set: a reported success is judged by the same oracle, a refusal must leave the first account intact; distinct = (n,t) cells with at least one successful generation",
+		"rule":                              "clusters of n real instances wired through their real receiver handlers (messages marshalled and unmarshalled); after every successful generation each participant must at once sign with the new account addressed by name and addressed by its share public key, and list it; grid: n in 2..max, every t in 0..n+1, identifier sets (small, 10^6+i, 2^64-i, mixed), every initiator; for a valid t every order of participants returned by the peer selection and every commit completion order (all n! for small n, rotations+reversal above), and one tampered commit reply per participant and kind; oracle on success: every participant holds the account with the returned composite key, same vector/threshold/participants, share consistent with the vector, immediate signing and listing through its own services, every t-subset of partial signatures recovers a valid composite signature and no (t-1)-subset does; plus generations without a client passphrase on instances whose generation passphrases differ (each participant must use its share with what its own unlocker knows); plus 20 generations on four instances that talk over the real gRPC transport (real API servers, real sender), judged by the same oracle; plus generations in a cluster of 5 configured instances for every n < 5 and every t incl. thresholds above n and without majority (exactly n participants reported, exactly n holders; impossible thresholds refused); plus second generations of a name the participants already hold, started on a participant and on an instance outside the participant set: a reported success is judged by the same oracle, a refusal must leave the first account intact; distinct = (n,t) cells with at least one successful generation",
 		"samples":                           samples.List(),
 		"exhaustive":                        !capped && len(vacuous) == 0,
 		"max_n":                             maxN,
@@ -572,6 +603,7 @@ func C12(tier string) int {
 		"successes_per_n_t":                 perNT,
 		"second_generations_of_a_held_name": reuse,
 		"generations_in_a_larger_cluster":   larger,
+		"generations_with_own_passphrases":  ownPass,
 		"generations_over_the_real_grpc_transport": overNet,
 		"vacuous_cells":                     vacuous,
 	}
